@@ -247,7 +247,7 @@ def random_units(r, rtu_mode):
 
 def auth_tok(r):
     role = r.pick(["", "operator", "viewer", "röle", "x" * 40, "a"]).encode()
-    pol = r.pick(["allow", "deny", "ro", f"h{r.below(1000)}", f"h{r.below(1000)}"])
+    pol = r.pick(["allow", "deny", "ro", "default", f"h{r.below(1000)}", f"h{r.below(1000)}"])
     return f"{pol}.r{role.hex()}"
 
 
@@ -356,6 +356,32 @@ def gen_srv(r, n, tier, rtu_mode=False, with_auth=None):
                     yield f"srv t d000 - {units_fixed} {hx(mbap(fcb, unit, bytes([fcb]) + body))}"
         yield f"srv t d000 - {units_fixed} {hx(mbap(1, 1, b''))}"
         yield f"srv t d000 - - {hx(mbap(1, 1, bytes([1, 0, 0, 0, 1])))}"
+    # exhaustive: the eight request kinds (this is what determines, by behaviour, the tables of
+    # request.rs / task.rs / handler.rs when their source can no longer be translated)
+    eight = [bytes([1, 0, 2, 0, 3]), bytes([2, 0, 2, 0, 3]), bytes([3, 0, 2, 0, 2]), bytes([4, 0, 2, 0, 2]),
+             bytes([5, 0, 2, 0xFF, 0]), bytes([6, 0, 2, 0x12, 0x34]), bytes([15, 0, 2, 0, 3, 1, 5]),
+             bytes([16, 0, 2, 0, 2, 4, 0, 7, 0, 8])]
+    two_units = units_fixed + ";2:s0.0.50.7,s2.0.50.8"
+    if with_auth is True:
+        # every policy (incl. the trait's default methods and the real read-only handler) x kind x
+        # {configured, unconfigured} unit
+        for pol in ("allow", "deny", "ro", "default", "h1", "h2", "h3"):
+            for role in ("", "6f70"):
+                for pdu in eight:
+                    for unit in (1, 9):
+                        yield f"srv t d000 {pol}.r{role} {units_fixed} {hx(mbap(7, unit, pdu))}"
+    if with_auth is None and not rtu_mode:
+        # every exception code a handler can return (ExceptionCode <-> u8 in both directions)
+        for code in range(256):
+            yield f"srv t d000 - 1:s0.0.20.3,x0.5.{code},s2.0.20.4,w2.6.{code} {hx(mbap(1, 1, bytes([1, 0, 5, 0, 1])))},{hx(mbap(2, 1, bytes([6, 0, 6, 0, 1])))}"
+    if rtu_mode:
+        # broadcast: each kind to unit 0 with two units, followed by a sentinel read of each unit
+        sentinel = hx(rtu(1, bytes([3, 0, 2, 0, 2]))) + "," + hx(rtu(2, bytes([3, 0, 2, 0, 2])))
+        for pdu in eight:
+            yield f"srv r d000 - {two_units} {hx(rtu(0, pdu))},{sentinel}"
+        # the length rule for every function byte (request direction), then a sentinel
+        for fcb in range(256):
+            yield f"srv r d000 - {units_fixed} {hx(rtu(1, bytes([fcb, 0, 2, 0, 1])))},{hx(rtu(1, bytes([3, 0, 2, 0, 2])))}"
     # boundary lattice of quantity x start for every function
     lattice_units = "1:s0.0.65536.3,s1.0.65536.4,s2.0.65536.5,s3.0.65536.6"
     for fc in (1, 2, 3, 4, 15, 16):
@@ -510,6 +536,10 @@ def gen_rdr_rtu(r, n, tier):
         # unknown function codes, too-long frames, wrong crc
         for fc in (0, 7, 8, 17, 43, 0x80, 0xFF):
             yield f"rdr {d} d000 {hx(bytes([1, fc]) + bytes(8))}"
+        # exhaustive: the length rule for every function byte in this direction (a body whose byte
+        # count positions say 2, then a valid frame: delimitation differences become visible)
+        for fc in range(256):
+            yield f"rdr {d} d000 {hx(bytes([1, fc, 2, 0, 2, 0, 2, 2, 0, 0, 0, 0]) + frames[0])}"
         yield f"rdr q d000 {hx(rtu(1, bytes([15, 0, 0, 0, 8, 250]) + bytes(250)))}"
         yield f"rdr p d000 {hx(rtu(1, bytes([3, 252]) + bytes(252)))}"
         yield f"rdr p d000 {hx(rtu(1, bytes([3, 251]) + bytes(251)))}"
@@ -919,6 +949,24 @@ def gen_tls(r, n, tier):
                 yield c
 
 
+def gen_role(r, n, tier):
+    """C09: the production role extraction on certificates carrying 0, 1, 2 or 3 ModbusRole extensions
+    (built by tools/der.py from the minted certificates; the openssl CLI cannot mint duplicates)"""
+    import os
+    import der
+    cdir = os.path.join(os.path.dirname(os.path.abspath(__file__)), "..", "certs")
+    bases = [der.pem_to_der(os.path.join(cdir, f"{c}_cert.pem")) for c in ("cli_operator", "cli_norole", "srv_ok", "ss_a")]
+    names = [b"operator", b"", "r\u00f6le".encode(), b"x" * 40, b"a b", b"viewer", b"admin"]
+    lists = [[]] + [[a] for a in names] + [[a, b] for a in names[:4] for b in names[:4]] + [[b"a", b"b", b"c"], [b"", b"", b""]]
+    for base in bases:
+        for roles in lists:
+            for where in ("start", "end"):
+                tok = "/".join("r" + x.hex() for x in roles) if roles else "-"
+                yield f"role {tok} {der.rebuild(base, roles, where).hex()}"
+        yield f"role - {der.rebuild(base, [], drop_all_extensions=True).hex()}"
+        yield f"role - {base.hex()}" if base is not bases[0] and base is not bases[3] else f"role r{b'operator'.hex()} {base.hex()}"
+
+
 ALL_LEVELS = [f"d{a}{f}{p}" for a in range(4) for f in range(3) for p in range(3)]
 
 
@@ -1053,6 +1101,9 @@ def gen_cl_enc(r, n, tier):
                 for fr in ("t", "r"):
                     yield f"cl {fr} d000 q16 m0 N,E,R0.a.{kind}.7.50.{start}.{cnt},A60"
                 yield f"cl t d000 q16 m0 N,E,Q0.a.{kind}.7.50.{start}.{cnt},A60"
+    for kind, args in (("wc", "9.1"), ("wc", "65535.0"), ("wr", "9.4660"), ("wr", "65535.65535")):
+        for fr in ("t", "r"):
+            yield f"cl {fr} d000 q16 m0 N,E,R0.a.{kind}.7.50.{args},A60"
     for kind, lim in (("wC", 1968), ("wR", 123)):
         for cnt in (0, 1, lim - 1, lim, lim + 1, lim + 8, lim + 9, 2008, 2009, 2040, 2041, 65535, 65536):
             if kind == "wR" and cnt > 200 and cnt not in (65535, 65536):
@@ -1274,6 +1325,19 @@ def gen_cl_task(r, n, tier, focus="mix"):
     """C10-C12 (and the client role of C05/C07/C20): event scripts for the client task, steered by
     the model state after each prefix (lock-step rounds through the Lean driver, `clq`)"""
     max_steps = 24 if tier == "thorough" else 14
+    if focus == "mix":
+        # exhaustive: every way the first request can end, followed by a second request - shows,
+        # by behaviour, which request errors end the session (SessionError::from_request_err)
+        good = mbap(0, 1, bytes([1, 1, 0x55]))
+        events = ["Xe", "Xf", "W", "X" + hx(bytes([0, 0, 0, 1, 0, 4, 1, 1, 1, 0x55])), "X" + hx(bytes([0, 0, 0, 0, 0, 0, 1])),
+                  "X" + hx(bytes([0, 0, 0, 0, 1, 0, 1])), "A50", "X" + hx(mbap(0, 1, bytes([0x81, 2]))),
+                  "X" + hx(mbap(0, 1, bytes([3, 2, 0, 1]))), "X" + hx(mbap(9, 1, bytes([1, 1, 0x55]))), "X" + hx(good),
+                  "X" + hx(mbap(0, 1, bytes([1, 2, 0x55])))]
+        for ev in events:
+            for m in (0, 1):
+                first = "R0.a.rc.1.50.0.8" if ev != "W" else "W,R0.a.rc.1.50.0.8"
+                tail = ev if ev != "W" else "A1"
+                yield f"cl t d000 q16 m{m} N,E0,{first},{tail},R0.b.rc.1.50.0.8,A60,A60"
     scripts = []
     for i in range(n):
         fr = "r" if r.chance(1, 4) else "t"
@@ -1507,6 +1571,7 @@ SUITES = {
     "srv_tcp": lambda r, n, tier: gen_srv(r, n, tier, False),
     "srv_rtu": lambda r, n, tier: gen_srv(r, n, tier, True),
     "srv_auth": lambda r, n, tier: gen_srv(r, n, tier, False, True),
+    "role": gen_role,
 }
 
 
